@@ -300,6 +300,11 @@ bloom_filter_alloc<A> bloom_filter_alloc<A>::deserialize(std::istream& is, const
     return bloom_filter_alloc<A>(static_cast<uint64_t>(num_longs) << 6, num_hashes, seed, allocator);
   }
 
+  // a non-empty image does not go through the validating constructor: check what it would check
+  if (num_hashes == 0 || num_longs == 0 || num_longs > ((MAX_FILTER_SIZE_BITS + 63) >> 6)) {
+    throw std::invalid_argument("Possible corruption: invalid number of hashes or bit array length in header");
+  }
+
   const uint64_t num_bits_set = read<uint64_t>(is);
   const bool is_dirty = (num_bits_set == DIRTY_BITS_VALUE);
 
@@ -380,6 +385,11 @@ bloom_filter_alloc<A> bloom_filter_alloc<A>::internal_deserialize_or_wrap(void* 
     throw std::invalid_argument("Cannot wrap an empty filter for writing");
   } else if (is_empty) {
     return bloom_filter_alloc<A>(static_cast<uint64_t>(num_longs) << 6, num_hashes, seed, allocator);
+  }
+
+  // a non-empty image does not go through the validating constructor: check what it would check
+  if (num_hashes == 0 || num_longs == 0 || num_longs > ((MAX_FILTER_SIZE_BITS + 63) >> 6)) {
+    throw std::invalid_argument("Possible corruption: invalid number of hashes or bit array length in header");
   }
 
   ensure_minimum_memory(end_ptr - ptr, sizeof(uint64_t));
